@@ -6,7 +6,7 @@ from core import alarm
 from vyxal.context import Context
 from vyxal import elements as E
 
-RULE = ("every n in 0..600 (quick) / 0..20000 (thorough) and random n to 10^12 for the monads (primality, prime factors with and without "
+RULE = ("every n in 0..600 (quick) / 0..20000 (thorough) random n to 10^12 and (for factorisation / primality / squareness) semiprimes and three-prime products of primes between 3 000 and 200 000 for the monads (primality, prime factors with and without "
         "multiplicity, divisors, factorial, totient, next / previous prime, divisor sum, perfect square, binary, hexadecimal, the four ranges, "
         "double / halve, square / root), every pair (n, m) <= 40 (quick) / <= 300 (thorough) for gcd, lcm and binomial. Oracle: the real element "
         "equals a naive Python reference written from the textbook definition, and the inverse pairs compose to the identity. Correspondence: "
@@ -154,6 +154,20 @@ def run(ctx, widen=False):
         if name not in SLOW:
             for _ in range(300 if thorough else 40):
                 cases.append({"f": name, "n": rng.randrange(10 ** rng.randint(3, 12))})
+    # numbers with two or three prime factors past any trial-division stage (where factorisers switch algorithm), prime squares
+    # and cubes, products of a small and a large prime: only for the functions whose reference stays cheap there
+    big_primes = [p for p in range(3001, 200000) if naive_isprime(p)]
+    structured = []
+    for _ in range(1500 if thorough else 250):
+        p, q, r = (rng.choice(big_primes) for _ in range(3))
+        structured += [p * q, p * p, rng.choice([2, 3, 5, 7, 11, 13]) * p * q, rng.choice([2, 4, 9, 25]) * p]
+        if rng.random() < 0.1:
+            structured.append(p * q * r if p * q * r < 10 ** 13 else p * q)
+    structured = sorted(set(structured))
+    for name in ("pf", "pfd", "isprime", "square"):
+        if name in MONADS:
+            cases += [{"f": name, "n": n} for n in structured]
+    ctx.bump("structured arguments (semiprimes and products of large primes)", len(structured))
     ctx.check_many("monad", cases)
     ctx.check_many("repeat", [c for c in cases if c["n"] <= 400][::3], procs=1)
     M = 300 if ctx.tier == "thorough" else 40
